@@ -26,7 +26,8 @@ class World:
     probe_min_runs = 600
     required_probes = ["jit_equals_all", "recalculate_after_dense_change", "next_past_grid", "refused_mode_misuse",
                        "apply_single_time", "apply_time_axis", "operator_form_tensor", "secular_tensor",
-                       "redfield_tensor_rwa", "semigroup_checked", "dense_gt_1", "save_mode_jit", "at_checked", "apply_inside_context", "jit_step_inside_context",
+                       "redfield_tensor_rwa", "semigroup_checked", "dense_gt_1", "save_mode_jit", "at_checked", "apply_inside_context", "jit_step_inside_context", "apply_inside_complex_context",
+                       "propagator_reused_without_refinement_argument", "apply_window_not_starting_at_zero",
                        "calculate_twice"]
     required_faults = ["mode_misuse"]
     components = {
@@ -66,7 +67,8 @@ class World:
                 ops.append({"op": "at", "k": rng.randrange(64), "which": rng.choice(["all", "jit"])})
             elif k == "apply":
                 ops.append({"op": "apply", "k": rng.randrange(64), "how": rng.choice(["single", "single", "axis", "list", "all", "array"]),
-                            "copy": rng.random() < 0.5, "pay": rng.randrange(1 << 30), "ctx": rng.random() < 0.3})
+                            "copy": rng.random() < 0.5, "pay": rng.randrange(1 << 30), "ctx": rng.random() < 0.3,
+                            "ctxkind": rng.choice(["ham", "ham", "complex"]), "first": rng.choice([0, 0, 1, 2])})
             else:
                 ops.append({"op": k})
         return {"N": N, "kind": kind, "Nt": Nt, "dt": dt, "seed": rng.randrange(1 << 30),
@@ -352,11 +354,23 @@ class Runner:
         r0 = a @ a.conj().T
         r0 = r0 / numpy.trace(r0).real
         rho = qr.ReducedDensityMatrix(data=r0.copy())
-        # direct propagation with a fresh propagator using the same refinement
-        prop = qr.ReducedDensityMatrixPropagator(self.time, self.ham, RTensor=self.relt)
-        prop.setDtRefinement(st["all_calc_dense"])
+        # direct propagation with ONE propagator kept for the whole run; its refinement is set the documented way
+        # (propagate(..., Nref=n)) whenever the superoperator was calculated with another dense step, and not touched otherwise
+        if getattr(self, "prop", None) is None:
+            self.prop = qr.ReducedDensityMatrixPropagator(self.time, self.ham, RTensor=self.relt)
+            self.prop_dense = 1
+        prop = self.prop
         try:
-            rhot = prop.propagate(qr.ReducedDensityMatrix(data=r0.copy()))
+            if self.prop_dense != st["all_calc_dense"]:
+                if st["all_calc_dense"] > 1:
+                    rhot = prop.propagate(qr.ReducedDensityMatrix(data=r0.copy()), Nref=st["all_calc_dense"])
+                else:
+                    prop.setDtRefinement(1)
+                    rhot = prop.propagate(qr.ReducedDensityMatrix(data=r0.copy()))
+                self.prop_dense = st["all_calc_dense"]
+            else:
+                rhot = prop.propagate(qr.ReducedDensityMatrix(data=r0.copy()))
+                self.ctx.probe("propagator_reused_without_refinement_argument")
         except Exception as e:
             raise Violation("propagate-raises", "op %d: %s: %s" % (i, type(e).__name__, e))
         direct = numpy.array(rhot.data)
@@ -374,8 +388,15 @@ class Runner:
             # everything comes back to the site basis when the context is left and must equal direct propagation
             import contextlib
             how2 = how
+            if op.get("ctxkind") == "complex":
+                gg = numpy.random.Generator(numpy.random.PCG64(op["pay"] + 17))
+                aa = gg.uniform(-1, 1, size=(N, N)) + 1j * gg.uniform(-1, 1, size=(N, N))
+                ctxop = qr.qm.SelfAdjointOperator(data=(aa + aa.conj().T) / 2.0)
+                self.ctx.probe("apply_inside_complex_context")
+            else:
+                ctxop = self.ham
             try:
-                with qr.eigenbasis_of(self.ham):
+                with qr.eigenbasis_of(ctxop):
                     if how2 == "single":
                         k = op["k"] % Nt
                         res = Uall.apply(float(self.time.data[k]), rho, copy=True)
@@ -422,15 +443,22 @@ class Runner:
                 elif how == "all":
                     res = Uall.apply("all", rho)
                 elif how == "array":
-                    res = Uall.apply([float(x) for x in self.time.data[:max(2, Nt // 2)]], rho)
+                    f0 = min(int(op.get("first", 0)), max(0, Nt - 3))
+                    res = Uall.apply([float(x) for x in self.time.data[f0:f0 + max(2, Nt // 2)]], rho)
                 else:
-                    res = Uall.apply(qr.TimeAxis(0.0, max(2, Nt // 2), p["dt"]), rho)
+                    f0 = min(int(op.get("first", 0)), max(0, Nt - 3))
+                    res = Uall.apply(qr.TimeAxis(float(self.time.data[f0]), max(2, Nt // 2), p["dt"]), rho)
             except Exception as e:
                 raise Violation("apply-raises", "op %d: apply(%s): %s: %s" % (i, how, type(e).__name__, e))
             got = numpy.array(res.data)
             n = got.shape[0]
-            check(close(got, direct[:n], rtol=0, atol=1e-10 * (1 + n)), "apply-reproduces-propagation",
-                  lambda: "op %d: apply(%s, rho) vs direct propagation: %s" % (i, how, maxdiff(got, direct[:n])))
+            f0 = f0 if how in ("array", "list") else 0
+            if f0 > 0:
+                self.ctx.probe("apply_window_not_starting_at_zero")
+            n = min(n, Nt - f0)
+            check(close(got[:n], direct[f0:f0 + n], rtol=0, atol=1e-10 * (1 + n + f0)), "apply-reproduces-propagation",
+                  lambda: "op %d: apply(%s, rho) on a window starting at index %d vs direct propagation: %s"
+                  % (i, how, f0, maxdiff(got[:n], direct[f0:f0 + n])))
             self.ctx.probe("apply_time_axis")
         self.ctx.ev(i, "apply", how, fingerprint(got))
         self.ctx.cov("apply", how, bool(op["copy"]))
